@@ -2,8 +2,8 @@
 use crate::util::{hex, Out, Sm};
 use num_bigint::BigUint;
 use num_traits::{One, ToPrimitive, Zero};
-use prio::codec::{Decode, Encode};
-use prio::field::{Field128, Field64, FieldElement, FieldElementWithInteger, FieldPrio2};
+
+use prio::field::{Field128, Field64, FieldElementWithInteger, FieldPrio2};
 use prio::verif_hooks::fp_op;
 
 struct Params {
